@@ -6,6 +6,7 @@ import (
 	"path/filepath"
 	"sort"
 	"strings"
+	"unicode"
 
 	"go.lsp.dev/protocol"
 )
@@ -23,9 +24,9 @@ func c18Counts(tier string) int64 {
 
 func init() {
 	Register(&Prop{
-		ID:   "C18",
-		Rule: "workspaces of 1-3 journals from G; account and commodity declarations placed in the current file, an included file, a sibling file that nothing includes, or nowhere (declarations of exact accounts and of parent accounts are injected so that 'below a declared account' occurs); every file is opened under each of the 8 combinations of the three diagnostics settings (fresh server with initializationOptions, or one server reconfigured through workspace/configuration), with and without workspace root. Oracle from the model over the scope: if >=1 account is declared, exactly the postings whose account is not declared, not below a declared account (declared + ':' prefix) and not under assets/liabilities/equity/expenses/revenues/income (any case) are warned about; if >=1 commodity is declared, each transaction carries one warning per distinct undeclared non-empty commodity among its amounts, costs and assertions; a switched-off kind is absent and the multiset of all other codes is identical across the 8 combinations. Non-trivial = document with >=1 expected warning; distinct by workspace hash.",
-		Notes: []string{"when the only declarations live in a sibling file that the root journal does not include, the presence of warnings is not judged (both readings of 'its workspace' are possible); the settings clauses still are"},
+		ID:          "C18",
+		Rule:        "workspaces of 1-3 journals from G; account and commodity declarations placed in the current file, an included file, a sibling file that nothing includes, or nowhere (declarations of exact accounts and of parent accounts are injected so that 'below a declared account' occurs); every file is opened under each of the 8 combinations of the three diagnostics settings (fresh server with initializationOptions, or one server reconfigured through workspace/configuration), with and without workspace root. Oracle from the model over the scope: if >=1 account is declared, exactly the postings whose account is not declared, not below a declared account (declared + ':' prefix) and not under assets/liabilities/equity/expenses/revenues/income (any case) are warned about; if >=1 commodity is declared, each transaction carries one warning per distinct undeclared non-empty commodity among its amounts, costs and assertions; a switched-off kind is absent and the multiset of all other codes is identical across the 8 combinations. Non-trivial = document with >=1 expected warning; distinct by workspace hash.",
+		Notes:       []string{"when the only declarations live in a sibling file that the root journal does not include, the presence of warnings is not judged (both readings of 'its workspace' are possible); the settings clauses still are"},
 		Cases:       c18Counts,
 		MustObserve: []string{"documents", "expected_account_warnings", "expected_commodity_warnings", "setting_combinations"},
 		Setup:       func(c *Ctx) { c.State = &c18State{bad: c.Known.BadFeatureSets("C03", "C18")} },
@@ -89,7 +90,7 @@ func runC18(c *Ctx, idx int64) {
 		}
 		if len(cmds) > 0 && r.Bool() {
 			cm := Pick(r, cmds)
-			if strings.ContainsAny(cm, " -0123456789") {
+			if needsQuotes(cm) {
 				cm = `"` + cm + `"`
 			}
 			decl = append(decl, "commodity "+cm)
@@ -356,4 +357,14 @@ func runC18(c *Ctx, idx int64) {
 	if c.Rep.Evaluations%101 == 0 {
 		c.Sample(map[string]any{"case": idx, "files": w.Names, "workspace_root": w.Root, "declarations_in": place, "main": w.Texts[0]})
 	}
+}
+
+// needsQuotes: a commodity symbol that is not made of letters and currency signs only is quoted.
+func needsQuotes(sym string) bool {
+	for _, r := range sym {
+		if !unicode.IsLetter(r) && !unicode.Is(unicode.Sc, r) {
+			return true
+		}
+	}
+	return false
 }
